@@ -269,6 +269,7 @@ func (f *WorkFile) SetUse(dirs []*Use) {
 	for _, d := range f.Use {
 		if modulePath, ok := need[d.Path]; ok {
 			d.ModulePath = modulePath
+			delete(need, d.Path) // found: do not add it again, and drop later duplicates
 		} else {
 			d.Syntax.markRemoved()
 			*d = Use{}
